@@ -88,6 +88,14 @@ def get_mod_nodes_remove_incompatibilities(
 
         # If the source node is confirmed, we need to remove target (and derived) incompatible nodes
         if edge[0] in confirmed_nodes:
+            # A target that nothing derives is the stub left behind to mark a constraint that could not be resolved
+            # before: the graph stays infeasible (removing the stub would silently drop that mark)
+            if edge[1] not in start_nodes and not any(
+                    get_edge_type(in_edge) in (EdgeType.DERIVES, EdgeType.CONNECTS)
+                    for in_edge in iter_in_edges(graph, edge[1])):
+                infeasible_incompatibility_edges.add(edge)
+                continue
+
             confirmed_incompatibility_edges.add(edge)
             removed_nodes.add(edge[1])
 
